@@ -59,3 +59,5 @@ pub mod c18a;
 pub mod c19;
 #[cfg(feature = "c20")]
 pub mod c20;
+#[cfg(feature = "c20s")]
+pub mod c20s;
